@@ -10,6 +10,7 @@ import (
 
 	"github.com/dave/dst"
 	"github.com/dave/dst/decorator"
+	"github.com/dave/dst/decorator/resolver/goast"
 	"github.com/dave/dst/decorator/resolver/simple"
 
 	"verif/core"
@@ -29,6 +30,9 @@ var c19Methods = []string{"Append", "Prepend", "Replace"}
 // argument shapes: 0 none, 1 one string, 2 two strings, 3 slice len1 cap3, 4 slice len2 cap3, 5 nil slice
 const c19Shapes = 6
 
+// initial lists: nil, empty, spare capacity, and four lists produced by the decorator / Clone
+const c19Inits = 7
+
 var c19NOps = len(c19Methods)*c19Shapes + 1 // + Clear
 
 func c19OpName(op int) string {
@@ -42,13 +46,13 @@ func init() {
 	core.Register(&core.Prop{
 		ID:    "C19",
 		Level: "model_checking",
-		Rule: "explicit-state BFS over all histories of Append/Prepend/Replace x {no args, 1, 2 strings, slices with spare capacity, nil slice} and Clear, from 3 initial lists (nil, empty, spare capacity), " +
-			"depth 7 (quick) / 10 (thorough); after every step: All() == []string model, caller backing arrays bit-identical, later caller mutation invisible, slices returned by earlier All() calls keep their contents, printed comments == All() (as a statement's Start decoration and as the Start/X/End decorations of a package-qualified identifier under import management); " +
+		Rule: "explicit-state BFS over all histories of Append/Prepend/Replace x {no args, 1, 2 strings, slices with spare capacity, nil slice} and Clear, from 7 initial lists (nil, empty, spare capacity; Start and X of a qualified identifier the decorator collapsed with all three of its points filled, Start of its Clone, X of a decorated binary expression), " +
+			"depth 7 (quick) / 10 (thorough); after every step: All() == []string model, caller backing arrays bit-identical, later caller mutation invisible, slices returned by earlier All() calls keep their contents, every other decoration list of the decorated file unchanged, printed comments == All() (as a statement's Start decoration and as the Start/X/End decorations of a package-qualified identifier under import management); " +
 			"state key = (contents relabelled by first occurrence, spare capacity); non-trivial = state with >=2 elements",
 		Assumptions: []string{"methods do not inspect string values (relabelling is a sound canonicalisation)"},
 		Units: func(tier string) []string {
 			var u []string
-			for i := 0; i < 3; i++ {
+			for i := 0; i < c19Inits; i++ {
 				for op := 0; op < c19NOps; op++ {
 					u = append(u, fmt.Sprintf("init%d/first=%s", i, c19OpName(op)))
 				}
@@ -106,18 +110,41 @@ func c19Exec(cs c19Case) (key string, out core.Outcome) {
 	fail := func(k, f string, a ...interface{}) (string, core.Outcome) {
 		return "", core.Outcome{Key: k, Desc: c19Describe(cs) + "\n" + fmt.Sprintf(f, a...)}
 	}
-	var d dst.Decorations
+	var own dst.Decorations
+	dp := &own
 	var model []string
 	serial := 0
 	fresh := func() string { serial++; return fmt.Sprintf("/*s%d*/", serial) }
+	// lists handed out by the library (init >= 3) live next to sibling lists in a decorated file: an
+	// operation on one list must leave every other list of the file as it was
+	var siblings func() string
 	switch cs.Init {
 	case 1:
-		d = dst.Decorations{}
+		own = dst.Decorations{}
 	case 2:
 		b := make([]string, 1, 4)
 		b[0] = fresh()
-		d = dst.Decorations(b)
+		own = dst.Decorations(b)
 		model = []string{b[0]}
+	case 3, 4, 5, 6:
+		f, target := c19LibraryList(cs.Init)
+		dp = target
+		model = append([]string{}, []string(*dp)...)
+		siblings = func() string {
+			var b strings.Builder
+			for ni, nd := range allNodes(f) {
+				for _, p := range decPoints(nd) {
+					if p.List != dp && len(*p.List) > 0 {
+						fmt.Fprintf(&b, "%d.%s=%q;", ni, p.Name, []string(*p.List))
+					}
+				}
+			}
+			return b.String()
+		}
+	}
+	siblingsBefore := ""
+	if siblings != nil {
+		siblingsBefore = siblings()
 	}
 	type live struct {
 		backing []string // full backing array (len 3)
@@ -128,7 +155,7 @@ func c19Exec(cs c19Case) (key string, out core.Outcome) {
 	for step, op := range cs.Hist {
 		var pan string
 		if op == c19NOps-1 {
-			pan = guard(func() { d.Clear() })
+			pan = guard(func() { dp.Clear() })
 			model = nil
 		} else {
 			m, shape := op/c19Shapes, op%c19Shapes
@@ -150,11 +177,11 @@ func c19Exec(cs c19Case) (key string, out core.Outcome) {
 			pan = guard(func() {
 				switch m {
 				case 0:
-					d.Append(args...)
+					dp.Append(args...)
 				case 1:
-					d.Prepend(args...)
+					dp.Prepend(args...)
 				case 2:
-					d.Replace(args...)
+					dp.Replace(args...)
 				}
 			})
 			switch m {
@@ -190,12 +217,17 @@ func c19Exec(cs c19Case) (key string, out core.Outcome) {
 			}
 			_ = si
 		}
-		got := d.All()
+		if siblings != nil {
+			if now := siblings(); now != siblingsBefore {
+				return fail("sibling-list-changed:"+c19Methods0(op), "step %d %s on one decoration list changed another list of the same decorated file:\nbefore: %s\nafter:  %s", step, c19OpName(op), siblingsBefore, now)
+			}
+		}
+		got := dp.All()
 		snapshots = append(snapshots, c19Snap{step: step, got: got, want: append([]string{}, got...)})
 		if len(got) != len(model) || (len(model) > 0 && !reflect.DeepEqual([]string(got), model)) {
 			return fail("model-mismatch:"+c19Methods0(op), "after step %d %s: All() = %q, ordered-list model = %q", step, c19OpName(op), got, model)
 		}
-		if rendered, err := c19Render(d); err != nil {
+		if rendered, err := c19Render(*dp); err != nil {
 			return fail("render-error", "after step %d: %v", step, err)
 		} else if strings.Join(rendered, "\x00") != strings.Join(model, "\x00") {
 			return fail("rendered-differs", "after step %d %s: rendered comments %q, All() = %q", step, c19OpName(op), rendered, got)
@@ -204,6 +236,7 @@ func c19Exec(cs c19Case) (key string, out core.Outcome) {
 	// canonical key: contents relabelled by first occurrence + spare capacity
 	lab := map[string]int{}
 	var parts []string
+	d := *dp
 	for _, s := range []string(d) {
 		if _, ok := lab[s]; !ok {
 			lab[s] = len(lab)
@@ -215,6 +248,34 @@ func c19Exec(cs c19Case) (key string, out core.Outcome) {
 		nilness = "n"
 	}
 	return fmt.Sprintf("%s,|cap+%d|%s", strings.Join(parts, ","), cap(d)-len(d), nilness), core.Outcome{OK: true}
+}
+
+// c19LibraryList returns a decorated file and one of its decoration lists as the library produced it:
+// 3 = Start, 4 = X of a qualified identifier collapsed by the decorator with all of Start/X/End filled,
+// 5 = Start of a Clone of that identifier (put in its place), 6 = X of a binary expression.
+func c19LibraryList(kind int) (*dst.File, *dst.Decorations) {
+	const src = "package a\n\nimport \"fmt\"\n\nvar v = []interface{}{\n\t/* s */ fmt. /* x */ Println, /* e */\n\t/* a */ 1 /* b */ + /* c */ 2, /* d */\n}\n"
+	dec := decorator.NewDecoratorWithImports(token.NewFileSet(), "example.com/local", goast.WithResolver(simple.New(map[string]string{"fmt": "fmt"})))
+	f, err := dec.Parse(src)
+	if err != nil {
+		panic(err)
+	}
+	lit := f.Decls[1].(*dst.GenDecl).Specs[0].(*dst.ValueSpec).Values[0].(*dst.CompositeLit)
+	id := lit.Elts[0].(*dst.Ident)
+	if id.Path != "fmt" {
+		panic("c19: qualified identifier not collapsed")
+	}
+	switch kind {
+	case 3:
+		return f, &id.Decs.Start
+	case 4:
+		return f, &id.Decs.X
+	case 5:
+		c := dst.Clone(id).(*dst.Ident)
+		lit.Elts[0] = c
+		return f, &c.Decs.Start
+	}
+	return f, &lit.Elts[1].(*dst.BinaryExpr).Decs.X
 }
 
 type c19Snap struct {
